@@ -19,6 +19,7 @@ import (
 	"context"
 	"encoding/json"
 	"fmt"
+	"regexp"
 	"sort"
 	"strings"
 	"time"
@@ -26,6 +27,7 @@ import (
 	"github.com/Comcast/sheens/core"
 	stdinterp "github.com/Comcast/sheens/interpreters"
 	"github.com/jsccast/yaml"
+	yamlv2 "gopkg.in/yaml.v2"
 )
 
 func init() { components["total"] = totalComponent }
@@ -268,16 +270,29 @@ func totalComponent(g *G, n int, opts map[string]string) *Out {
 			js2, _ := json.Marshal(doc2)
 			reviseForce := g.chance(0.5)
 			asYAML := g.chance(0.4)
+			viaV2 := false
 			if asYAML {
-				if y, err := yaml.Marshal(doc); err == nil {
+				ydoc := doc
+				if g.chance(0.5) {
+					// the stock YAML decoder (gopkg.in/yaml.v2, which sio uses for specifications fetched by URL) gives
+					// maps keyed by interface{}; a key that YAML does not read as a string (1, on, ~, 2.5) stays what it is
+					viaV2 = true
+					ydoc = oddKeys(deepCopy(doc, nil), g)
+				}
+				if y, err := yaml.Marshal(ydoc); err == nil {
 					text = string(y)
+					if viaV2 {
+						text = oddKeyRe.ReplaceAllString(text, "$1$2:")
+					}
 				}
 			}
 			compiled := false
 			outcome = guarded(func() {
 				var spec core.Spec
 				var err error
-				if asYAML {
+				if viaV2 {
+					err = yamlv2.Unmarshal([]byte(text), &spec)
+				} else if asYAML {
 					err = yaml.Unmarshal([]byte(text), &spec)
 				} else {
 					err = json.Unmarshal([]byte(text), &spec)
@@ -304,6 +319,9 @@ func totalComponent(g *G, n int, opts map[string]string) *Out {
 			kind := "specdoc-json"
 			if asYAML {
 				kind = "specdoc-yaml"
+			}
+			if viaV2 {
+				kind = "specdoc-yaml-v2-odd-keys"
 			}
 			o.count(kind)
 			if compiled {
@@ -370,4 +388,28 @@ func totalComponent(g *G, n int, opts map[string]string) *Out {
 		o.add(term, key, true, c)
 	}
 	return o
+}
+
+var oddKeyRe = regexp.MustCompile(`(?m)^(\s*(?:- )?)"?'?(1|on|~|yes|2\.5|off|null)'?"?:`)
+
+// oddKeys puts members named 1, on, ~, 2.5 ... into some maps of the patterns of a specification document
+func oddKeys(doc interface{}, g *G) interface{} {
+	var visit func(x interface{}, inPattern bool)
+	visit = func(x interface{}, inPattern bool) {
+		switch v := x.(type) {
+		case map[string]interface{}:
+			if inPattern && g.chance(0.6) {
+				v[g.pick([]string{"1", "on", "~", "yes", "2.5", "off", "null"})] = g.scalar()
+			}
+			for k, y := range v {
+				visit(y, inPattern || k == "pattern")
+			}
+		case []interface{}:
+			for _, y := range v {
+				visit(y, inPattern)
+			}
+		}
+	}
+	visit(doc, false)
+	return doc
 }
